@@ -70,7 +70,7 @@ def brute_best(C):
         v = C[idx, list(p)].sum()
         if v > best:
             best = v
-    return best / R
+    return float(best / R)
 
 
 def corr_index_single(x1, x2):
@@ -585,7 +585,9 @@ def _o_leverage(part):
             discard("ill-conditioned: smallest non-zero singular value too close to the rank threshold")
         got = ML.leverage_score_dist(a.copy())
         g = assert_shape(got, (a.shape[0],), "leverage/shape")
-        tol = 1e-6 if f32 else 1e-12
+        # float32 input: the docstring promises a float64 distribution that rng.choice accepts; NumPy's choice() rejects
+        # |sum(p) - 1| > sqrt(eps_float64) = 1.49e-8, hence 1e-8 rather than a single-precision tolerance
+        tol = 1e-8 if f32 else 1e-12
         deficient = rank < min(a.shape)
         if part == "distribution":
             check(g.dtype == np.float64, "leverage/dtype-float64", lambda: f"dtype {g.dtype}")
